@@ -13,6 +13,9 @@ import (
 	tq "github.com/facebookincubator/tacquito"
 )
 
+// maxUsernameLen is the longest user name the user_len octet of an authentication start packet can announce
+const maxUsernameLen = 255
+
 // NewAuthenticateASCII ...
 func NewAuthenticateASCII(l loggerProvider, c configProvider, username string) *AuthenticateASCII {
 	return &AuthenticateASCII{loggerProvider: l, configProvider: c, username: username, recorderWriter: newPacketLogger(l)}
@@ -83,6 +86,21 @@ func (a *AuthenticateASCII) getUsername(response tq.Response, request tq.Request
 				tq.NewAuthenReply(
 					tq.SetAuthenReplyStatus(tq.AuthenStatusError),
 					tq.SetAuthenReplyServerMsg("missing UserMessage, containing the username"),
+				),
+				a.recorderWriter,
+			)
+			return
+		}
+		// a user name given in the start packet cannot be longer than its one octet length field
+		// allows; hold a name collected here to the same limit.  Replies echo the name, and one of
+		// tens of kilobytes would make them too large to encode, leaving the client without a reply
+		if len(body.UserMessage) > maxUsernameLen {
+			authenASCIIGetUsernameAuthenError.Inc()
+			response.ReplyWithContext(
+				a.Context(),
+				tq.NewAuthenReply(
+					tq.SetAuthenReplyStatus(tq.AuthenStatusError),
+					tq.SetAuthenReplyServerMsg("username is too long"),
 				),
 				a.recorderWriter,
 			)
